@@ -7,17 +7,16 @@ CONSTANTS
   Caps = {TRUE, FALSE}
   MaxIdles = {1}
   IdleTimeouts = {0}
-  Protos = {TRUE, FALSE}
+  Protos = {TRUE}
   Faults <- DialFaults
   Spurious = FALSE
-  Durs <- Durs01
+  Durs <- Durs1
   MaxT = 2
   RespFaults = FALSE
   PreResp = FALSE
   Probe = TRUE
   AsBuiltT <- NoT
-  GenDepth = 0
-SPECIFICATION ProbeSpecH
+SPECIFICATION ProbeSpec
 VIEW TView
 PROPERTY ProbeCompletes
 CHECK_DEADLOCK FALSE
